@@ -153,10 +153,20 @@ class Curve(object):
             pl = Plane(Vector3D(*spec['n']), Point3D(*spec['o']), x)
             self.obj = Arc3D(pl, spec['r'], spec['a1'], spec['a2'])
             self.o, self.ex, self.ey, self.ez = tup(pl.o), tup(pl.x), tup(pl.y), tup(pl.n)
-        elif c == 'Polyline3D':
-            self.obj = Polyline3D([Point3D(*p) for p in spec['pts']])
-        elif c == 'Polyline2D':
-            self.obj = Polyline2D([Point2D(*p) for p in spec['pts']])
+        elif c in ('Polyline3D', 'Polyline2D'):
+            P, PL = (Point3D, Polyline3D) if c == 'Polyline3D' else (Point2D, Polyline2D)
+            k = spec.get('warm_scale')
+            if k:
+                # the same polyline reached through a history: built 1/k times the size (k is a
+                # power of two, so the division is exact), its length read, then scaled by k --
+                # measures the object reports must be those of the object it now is
+                base = PL([P(*[x / k for x in p]) for p in spec['pts']])
+                base.length
+                if spec.get('warm_moves'):
+                    base = base.reverse().reverse()
+                self.obj = base.scale(k)
+            else:
+                self.obj = PL([P(*p) for p in spec['pts']])
         else:
             raise ValueError(c)
         if self.kind == 'seg':
@@ -717,7 +727,11 @@ class G(object):
             for _ in range(n - 1):
                 v = self.vec(d, stream)
                 pts.append([pts[-1][i] + v[i] for i in range(d)])
-            return {'cls': cls, 'pts': pts}
+            sp = {'cls': cls, 'pts': pts}
+            if r.random() < 0.3:
+                sp['warm_scale'] = r.choice([2.0, 0.5, 4.0, 0.25])
+                sp['warm_moves'] = r.random() < 0.5
+            return sp
         raise ValueError(cls)
 
     def cutter(self, cv, stream):
